@@ -405,3 +405,7 @@ fn test_unspanned() {
     assert!(stderr.contains("a.txt: thing 3: while eating a sub: blah 20"), "{}", stderr);
     assert_snapshot!(stderr);
 }
+
+#[cfg(kani)]
+#[path = "/verif/contracts/kani/diagnostic.rs"]
+pub(crate) mod verif_kani;
